@@ -240,6 +240,30 @@ def run_case(ctx, k, rng):
             if start is None:
                 ctx.check("fit learns [min birth, max death]", T.start == bars0[:, 0].min() and T.stop == bars0[:, 1].max(),
                           start=T.start, stop=T.stop)
+            # train / test: fitted on this diagram, applied to another one (deeper or shallower) inside the fitted grid
+            lo_, hi_ = float(T.start), float(T.stop)
+            if hi_ > lo_:
+                m2 = int(rng.integers(1, 13))
+                b2 = lo_ + rng.random(m2) * (hi_ - lo_) * 0.6
+                d2 = np.minimum(b2 + rng.random(m2) * (hi_ - lo_) * 0.8 + 1e-3 * (hi_ - lo_), hi_)
+                other = np.column_stack([b2, d2])
+                if rng.random() < 0.5:      # many overlapping bars: deeper than the training diagram
+                    other = np.vstack([other, np.column_stack([np.full(6, lo_), np.linspace(hi_ - (hi_ - lo_) * 0.3, hi_, 6)])])
+                d_other = dgms[:hom] + [other] + dgms[hom + 1:]
+                ctx.ran(2)
+                with contextlib.redirect_stdout(io.StringIO()):
+                    out_o = T.transform(d_other)
+                    ref_o = PLA(start=lo_, stop=hi_, num_steps=num, dgms=d_other, hom_deg=hom).values
+                if np.asarray(ref_o).dtype.kind not in "US":
+                    want_o = OL.lam_all(other, np.linspace(lo_, hi_, num))
+                    got_o = np.asarray(out_o, float).reshape(-1, num) if np.asarray(out_o).size else np.zeros((0, num))
+                    full_o = np.zeros((len(other), num)); full_o[:min(len(got_o), len(other))] = got_o[:len(other)]
+                    step_o = (hi_ - lo_) / (num - 1)
+                    ctx.check("transformer fitted on one diagram, applied to another: within half a step of that diagram's landscape",
+                              float(np.abs(full_o - want_o).max()) <= step_o / 2 + tolerance(other) and
+                              (np.array_equal(np.asarray(out_o), np.asarray(ref_o).flatten()) if flat else np.array_equal(out_o, ref_o)),
+                              worst=float(np.abs(full_o - want_o).max()), step=step_o, out_shape=np.shape(out_o), ref_shape=np.shape(ref_o),
+                              train_bars=len(bars0), test_bars=len(other))
         except Exception as e:
             ctx.exception("transformer returns", e)
     else:
